@@ -927,12 +927,14 @@ fn check_search(ctx: &mut Ctx, spec: &CorpusSpec, built: &Built, searcher: &Sear
     if key == "C06:topk-wrong" && *kind == Kind::Score {
         if let Some(terms) = qe.q.wand_terms() {
             let (ubmax, ubblock) = ub_check(searcher, built.fields.body, &terms);
-            if let Some(w) = ubmax {
-                key = "C06:maxscore-not-upper-bound".into();
-                extra = format!(" [UB_max fails: {w}]");
-            } else if let Some(w) = ubblock {
-                key = "C06:blockmax-pair-wrong-avg-fieldnorm".into();
-                extra = format!(" [UB_block fails: {w}]");
+            // the single-scorer driver reads block bounds first (max_score only as a fallback),
+            // the multi-scorer drivers select the pivot with max_score first
+            let single = terms.len() == 1;
+            match (ubmax, ubblock) {
+                (_, Some(w)) if single => { key = "C06:blockmax-pair-wrong-avg-fieldnorm".into(); extra = format!(" [UB_block fails: {w}]"); }
+                (Some(w), _) => { key = "C06:maxscore-not-upper-bound".into(); extra = format!(" [UB_max fails: {w}]"); }
+                (None, Some(w)) => { key = "C06:blockmax-pair-wrong-avg-fieldnorm".into(); extra = format!(" [UB_block fails: {w}]"); }
+                (None, None) => {}
             }
         }
     } else if key == "C06:topk-wrong" && !exact {
@@ -1185,6 +1187,7 @@ fn corpus_run(ctx: &mut Ctx, spec: &CorpusSpec, rng: &mut Rng, n_queries: usize,
             }
         }
     }
+    driver_run(ctx, spec, &built, &ss[0].1, rng, 6);
     let _ = built.num_docs;
 }
 
@@ -1234,6 +1237,116 @@ fn guided_ties(ctx: &mut Ctx, want: usize, max_iter: u64) {
                 check_search(ctx, &spec, &built, searcher, *threads, qe, &kind, n - o, o);
             }
         }
+    }
+}
+
+// ---------------------------------------------------------------------------------------------
+// (C) the pruning drivers under arbitrary callbacks: Weight::for_each_pruning (public) vs the
+//     exhaustive loop over Weight::for_each, same callback policy
+// ---------------------------------------------------------------------------------------------
+
+#[derive(Clone, Debug)]
+enum Policy {
+    /// the callback always returns the same threshold
+    Const(u32),
+    /// the callback returns the score it was just offered (only strictly increasing scores pass)
+    Staircase,
+    /// the callback keeps the K best scores and returns the K-th best (what TopDocs does)
+    KthBest(usize),
+}
+
+struct PolicyState {
+    policy: Policy,
+    best: Vec<f32>,
+    theta: f32,
+}
+
+impl PolicyState {
+    fn new(policy: Policy, initial: f32) -> PolicyState {
+        PolicyState { policy, best: vec![], theta: initial }
+    }
+    fn call(&mut self, score: f32) -> f32 {
+        self.theta = match &self.policy {
+            Policy::Const(b) => f32::from_bits(*b),
+            Policy::Staircase => score,
+            Policy::KthBest(k) => {
+                self.best.push(score);
+                self.best.sort_by(|a, b| b.partial_cmp(a).unwrap());
+                self.best.truncate(*k);
+                if self.best.len() == *k { self.best[*k - 1] } else { self.theta }
+            }
+        };
+        self.theta
+    }
+}
+
+fn driver_case(ctx: &mut Ctx, spec: &CorpusSpec, built: &Built, searcher: &Searcher, q: &Q, policy: &Policy, initial: f32) {
+    use tantivy::query::EnableScoring;
+    let query = q.build(built.fields.body);
+    let Ok(weight) = query.weight(EnableScoring::enabled_from_searcher(searcher)) else { return };
+    for (ord, reader) in searcher.segment_readers().iter().enumerate() {
+        let case = json!({"kind": "driver", "corpus": spec.to_json(), "query": q.to_json(), "policy": format!("{policy:?}"), "initial_bits": initial.to_bits(), "segment_order": segment_order(searcher), "segment": ord});
+        let mut all: Vec<(DocId, Score)> = vec![];
+        if catch_unwind(AssertUnwindSafe(|| weight.for_each(reader, &mut |d, s| all.push((d, s))))).is_err() {
+            continue;
+        }
+        // expected: weight.rs::for_each_pruning_scorer over the exhaustive list
+        let mut st = PolicyState::new(policy.clone(), initial);
+        let mut expected: Vec<(DocId, u32)> = vec![];
+        for (d, s) in &all {
+            if *s > st.theta {
+                expected.push((*d, s.to_bits()));
+                st.call(*s);
+            }
+        }
+        let mut st = PolicyState::new(policy.clone(), initial);
+        let mut got: Vec<(DocId, u32)> = vec![];
+        let r = catch_unwind(AssertUnwindSafe(|| weight.for_each_pruning(initial, reader, &mut |d, s| { got.push((d, s.to_bits())); st.call(s) })));
+        ctx.report.count(&format!("driver:{}", q.path()));
+        ctx.report.count(&format!("driver-policy:{}", match policy { Policy::Const(_) => "const", Policy::Staircase => "staircase", Policy::KthBest(_) => "kth-best" }));
+        ctx.report.case(&format!("driver|{}|{}|{policy:?}|{}|{ord}", spec.to_json(), q.to_json(), initial.to_bits()), all.len() > 128 && expected.len() < all.len());
+        if r.is_err() || !matches!(r, Ok(Ok(()))) {
+            ctx.report.violation("oracle", "C06:pruning-driver-failed", format!("for_each_pruning on {} (segment {ord}) failed or panicked", q.to_json()), case);
+            continue;
+        }
+        if got != expected {
+            let p = (0..got.len().max(expected.len())).find(|i| got.get(*i) != expected.get(*i)).unwrap_or(0);
+            let mut key = "C06:pruning-driver-differs-from-exhaustive".to_string();
+            let mut extra = String::new();
+            if let Some(terms) = q.wand_terms() {
+                let (ubmax, ubblock) = ub_check(searcher, built.fields.body, &terms);
+                let single = terms.len() == 1;
+                match (ubmax, ubblock) {
+                    (_, Some(w)) if single => { key = "C06:blockmax-pair-wrong-avg-fieldnorm".into(); extra = format!(" [UB_block fails: {w}]"); }
+                    (Some(w), _) => { key = "C06:maxscore-not-upper-bound".into(); extra = format!(" [UB_max fails: {w}]"); }
+                    (None, Some(w)) => { key = "C06:blockmax-pair-wrong-avg-fieldnorm".into(); extra = format!(" [UB_block fails: {w}]"); }
+                    (None, None) => {}
+                }
+            }
+            ctx.report.violation("oracle", &key, format!("{} via {} on segment {ord} ({} docs), policy {policy:?}, initial threshold {initial:?}: callback sequence differs from the exhaustive loop at call {p}: got {:?}, expected {:?} ({} vs {} calls){extra}", q.to_json(), q.path(), all.len(), got.get(p).map(|(d, s)| (*d, f32::from_bits(*s))), expected.get(p).map(|(d, s)| (*d, f32::from_bits(*s))), got.len(), expected.len()), case);
+        }
+    }
+}
+
+fn driver_run(ctx: &mut Ctx, spec: &CorpusSpec, built: &Built, searcher: &Searcher, rng: &mut Rng, n: usize) {
+    for _ in 0..n {
+        // one or two scoring clauses: the scores are bit-identical on both paths (IEEE addition commutes)
+        let mut ts: Vec<String> = TERMS.iter().take(4).map(|s| s.to_string()).collect();
+        rng.shuffle(&mut ts);
+        let q = match rng.below(4) { 0 | 1 => Q::Term(ts[0].clone()), 2 => Q::Union(ts[..2].to_vec()), _ => Q::Inter(ts[..2].to_vec()) };
+        // thresholds taken from the scores that occur (strictness at equality) and around them
+        let sample: Vec<Score> = {
+            let query = q.build(built.fields.body);
+            searcher.search(query.as_ref(), &AllHits).map(|h| h.into_iter().map(|x| x.2).collect()).unwrap_or_default()
+        };
+        let pick = |rng: &mut Rng| -> f32 {
+            if sample.is_empty() { return 0.0 }
+            let s = sample[rng.usize_below(sample.len())];
+            match rng.below(4) { 0 => s, 1 => f32::from_bits(s.to_bits().saturating_sub(1)), 2 => f32::from_bits(s.to_bits() + 1), _ => s * 0.5 }
+        };
+        let policy = match rng.below(5) { 0 => Policy::Const(pick(rng).to_bits()), 1 => Policy::Staircase, _ => Policy::KthBest(1 + rng.usize_below(30)) };
+        let initial = match (&policy, rng.below(3)) { (Policy::Const(b), _) => f32::from_bits(*b), (_, 0) => pick(rng), _ => f32::MIN };
+        driver_case(ctx, spec, built, searcher, &q, &policy, initial);
     }
 }
 
@@ -1354,6 +1467,7 @@ pub fn run(ctx: &mut Ctx) {
         "TopNComputer::threshold after every push = model threshold".into(),
         "Searcher::search(TopDocs by score / fast field asc,desc (u64,i64,f64,date,str) / tweak_score / custom SortKeyComputer / pair) = model topK of the same searcher's exhaustive (doc,key) list".into(),
         "paging over successive offsets enumerates every match exactly once".into(),
+        "Weight::for_each_pruning (block_wand_single_scorer / block_wand / block_wand_intersection) under constant, staircase and K-th-best callback policies = the exhaustive loop with the same callback (1-2 clause queries, bit-exact)".into(),
         "known bound failures (UB_max, UB_block) recomputed through the public postings API before attribution".into(),
     ];
     if let Some(case) = ctx.replay.clone() {
